@@ -196,13 +196,14 @@ let pr_log (l : M.call list) : string =
 
 (* ---------- pool ---------- *)
 let pool : (string, M.ty) Hashtbl.t = Hashtbl.create 256
+let pool_order : string list ref = ref []
 let load_pool (path : string) : unit =
   let ic = open_in path in
   (try while true do
        let line = input_line ic in
        if String.length line > 0 && line.[0] <> '#' then
          match parse_sx line with
-         | A id :: d :: _ -> Hashtbl.replace pool id (ty_of d)
+         | A id :: d :: _ -> Hashtbl.replace pool id (ty_of d); pool_order := !pool_order @ [id]
          | _ -> ()
      done with End_of_file -> ());
   close_in ic
@@ -278,6 +279,10 @@ let run_case (toks : sx list) : string =
       (match M.dec t M.bufr_ops r0 with
        | M.Ok (v, r) -> Printf.sprintf "st=0 val=%s consumed=%s" (string_of_val v) (string_of_n r.M.br_idx)
        | M.Err (e, _) -> Printf.sprintf "st=%s" (string_of_n e))
+  (* fungrow T: model IsFungible<T, Tj> for every pool type Tj in pool order *)
+  | [A "fungrow"; A tid] ->
+      let t = ty_named tid in
+      "row=" ^ String.concat "" (List.map (fun id -> if M.fungible t (ty_named id) then "1" else "0") !pool_order)
   | A op :: _ -> failwith ("unknown op " ^ op)
   | _ -> failwith "bad case"
 
